@@ -63,6 +63,7 @@ theorem ellipse_points_translate (e : Ellipse) (d : Pt) (h : e.InRange) (h' : (e
 
 example : (⟨⟨-3, 2⟩, 7⟩ : Circle).InRange ∧ ((⟨⟨-3, 2⟩, 7⟩ : Circle).translate ⟨-9, 4⟩).InRange := by decide
 
--- [V] the pixel maps of styled circles / ellipses / rounded rectangles / sectors / arcs under translation (scanline sources of the moved shape): carried by correspondence (all styled.translate ops of these kinds are compared with the model) + oracle only
+-- The pictures of styled circles / ellipses under translation: EG/Props/C07/CurvedDraw.lean; styled rounded rectangles
+-- (all corner radii): EG/Props/C07/RoundedRect.lean; styled arcs / sectors: EG/Props/C07/Arc.lean.
 
 end EG.C07.Curved
